@@ -330,20 +330,15 @@ namespace awkward {
 
   const Index8
   ByteMaskedArray::bytemask() const {
-    if (!valid_when_) {
-      return mask_;
-    }
-    else {
-      Index8 out(length());
-      struct Error err = kernel::ByteMaskedArray_mask8(
-        kernel::lib::cpu,   // DERIVE
-        out.data(),
-        mask_.data(),
-        mask_.length(),
-        valid_when_);
-      util::handle_error(err, classname(), identities_.get());
-      return out;
-    }
+    Index8 out(length());
+    struct Error err = kernel::ByteMaskedArray_mask8(
+      kernel::lib::cpu,   // DERIVE
+      out.data(),
+      mask_.data(),
+      mask_.length(),
+      valid_when_);
+    util::handle_error(err, classname(), identities_.get());
+    return out;
   }
 
   const ContentPtr
